@@ -220,6 +220,11 @@ func ParseSliceHeader(nalu []byte, spsMap map[uint32]*SPS, ppsMap map[uint32]*PP
 					sh.NumLongTermSps = uint8(r.ReadExpGolomb())
 				}
 				sh.NumLongTermPics = r.ReadExpGolomb()
+				// The sum of the numbers of reference pictures shall not exceed sps_max_dec_pic_buffering_minus1 (at most 15).
+				// Conservative bound.
+				if sh.NumLongTermPics > 64 {
+					return sh, fmt.Errorf("num_long_term_pics %d > 64", sh.NumLongTermPics)
+				}
 				for i := uint(0); i < uint(sh.NumLongTermSps)+sh.NumLongTermPics; i++ {
 					var lt LongTermRPS
 					if i < uint(sh.NumLongTermSps) {
